@@ -69,7 +69,7 @@ def run(ctx, driver):
                 "offsets, higher order) x spelling x entry order x symbolic/numeric parameters x custom step/marker symbols; (a) end-to-end oracle on the returned "
                 "dictionary (identity at 0, d/dh = rhs at the updated state, semigroup) at 3 random 40-digit points; (b) correspondence of component cut and "
                 "update-expression assembly (incl. the guarded error paths, reached by bypassing the demotion rules in every 4th case); distinct = distinct inputs; "
-                "non-trivial = analytical solver with >= 2 variables or an offset")
+                "non-trivial = analytical solver with >= 2 variables or an offset; also non-autonomous equations (time-dependent forcing or coefficient, every 8th case, half with a renamed time symbol: the flow oracle advances the time symbol), second-order equations with real roots (every 16th with the initial values written derivative first), exact symbolic constants, sum coefficients, names from the marker's alphabet")
     cases = gen(ctx, ctx.n(64, 1200))
     flow = _shared.run_full(ctx, cases, timeout=ctx.n(45, 120), frac=0.5)
     for case, res in zip(cases, flow):
